@@ -30,6 +30,12 @@ out = p.stdout.strip()
 txt = open(log).read()
 nrep = txt.count("WARNING: ThreadSanitizer")
 print(out if out else "TSAN pass produced no completion line")
+# (3) hand-off histories: non-overlapping use of one image by two threads must equal the same history on one thread (c16_handoff.c)
+handoff = build.build_check("C16handoff", os.path.join(VERIF, "checks", "c16_handoff.c"), "opt", extra_cflags=["-O1"])
+hp = subprocess.run([handoff, "4" if thorough else "3"], stdout=subprocess.PIPE, stderr=subprocess.STDOUT, text=True)
+hout = hp.stdout.strip()
+hdone = [l for l in hout.splitlines() if l.startswith("HANDOFF-DONE")]
+print(hdone[0] if hdone else "hand-off pass produced no completion line")
 # static inventory of writable globals (informational: the dynamic exploration decides)
 allow = set()
 for line in open(os.path.join(VERIF, "checks", "c16_globals_allow.txt")):
@@ -53,6 +59,12 @@ try:
     ev = json.load(open(evpath))
     ev["coverage"]["writable_globals_inventory"] = {"count": len(writable), "not_in_allow_list": new_globals}
     ev["coverage"]["tsan_free_running_pass"] = {"threads": 16, "rounds": int(rounds), "reports": nrep, "exit": p.returncode, "completed": "TSAN-PASS-DONE" in out}
+    hm = re.search(r"len=(\d+) steps=(\d+) histories=(\d+) executions=(\d+) distinct_outcomes>=(\d+) mismatches=(\d+)", hdone[0]) if hdone else None
+    ev["coverage"]["handoff_histories"] = {"completed": bool(hdone), "length": int(hm.group(1)) if hm else 0, "step_alphabet": int(hm.group(2)) if hm else 0, "histories": int(hm.group(3)) if hm else 0,
+                                           "executions(histories x thread assignments)": int(hm.group(4)) if hm else 0, "distinct_outcomes_at_least": int(hm.group(5)) if hm else 0,
+                                           "mismatches": int(hm.group(6)) if hm else -1,
+                                           "rule": "every history of that many steps over the alphabet (draw; another draw elsewhere; set_transform x3 / set_filter / set_repeat / reset / destroy-and-recreate / client clip, each followed by the same draw) "
+                                                   "x every assignment of the steps to two threads, executed with a strict hand-off; destination digest after every step equals the one-thread execution"}
     json.dump(ev, open(evpath, "w"), indent=1)
 except Exception as e:
     print("could not annotate evidence:", e)
@@ -61,5 +73,12 @@ if nrep or p.returncode != 0 or "TSAN-PASS-DONE" not in out or "SHARED-IMAGE-STI
     rfile = os.path.join(rp, "tsan-report.txt")
     open(rfile, "w").write("check C16\nkey c16-tsan-data-race\nspace tsan\ncase %s\ndetail %d ThreadSanitizer report(s), exit %d; first lines:\n%s\n" % (rounds, nrep, p.returncode, txt[:3000]))
     print("VIOLATION property=C16 replay=%s\n  key=c16-tsan-data-race: %d ThreadSanitizer report(s) in the free-running pass (exit %d), see %s" % (rfile, nrep, p.returncode, log))
+    rc = 1
+if hp.returncode != 0 or not hdone or "HANDOFF-MISMATCH" in hout:
+    rp = os.path.join(VERIF, "replays", "C16"); os.makedirs(rp, exist_ok=True)
+    rfile = os.path.join(rp, "handoff-report.txt")
+    first = [l for l in hout.splitlines() if l.startswith("HANDOFF-MISMATCH")][:5]
+    open(rfile, "w").write("check C16\nkey c16-handoff-result-differs\nspace handoff\ncase %s\ndetail %s\n" % ("4" if thorough else "3", "\n".join(first) if first else hout[:2000]))
+    print("VIOLATION property=C16 replay=%s\n  key=c16-handoff-result-differs: %s" % (rfile, (first[0] + ("" if hdone else " [and the pass then ended with exit %d]" % hp.returncode)) if first else "the hand-off pass did not complete (exit %d)" % hp.returncode))
     rc = 1
 sys.exit(rc)
